@@ -43,3 +43,43 @@ def run(ctx):
     pair = g.calls('parsec_dtd_insert_flush_task_pair'); rm = g.calls('parsec_dtd_tile_remove')
     rb.expect(len(pair) == 1 and len(rm) == 1 and g.precedes(pair[0], rm[0]), 'flush:remove-order', (pair or rm or [None])[0].loc if (pair or rm) else g.where(),
               'the tile must be flushed before it is removed from the tile table', note='insert flush pair, then remove the tile from the table')
+    # (c) the copy-back of a flushed value to the owner's tile is a deferred command of the communication
+    #     thread, protected by one pending action of the taskpool (taken when the command is queued);
+    #     that pending action is the only thing that keeps parsec_taskpool_wait from returning, so it
+    #     must be released after the copy, never before.
+    rc = ctx.rule('R17.c', 'deferred local copy: the pending action of the taskpool is released only after the copy was made', floor=3)
+    um = ctx.extract('parsec/remote_dep_mpi.c')
+    h = um.func('remote_dep_nothread_memcpy')
+    if h is None:
+        raise AnalysisBroken('remote_dep_nothread_memcpy not found')
+    ctx.functions_analysed.add(h.name)
+    cp = [e for e in h.events() if e.kind == 'call' and e.fn is None and e.callee is not None and e.callee.s.endswith('.reshape')]
+    dec = h.calls('remote_dep_dec_flying_messages')
+    rc.expect(len(cp) == 1 and len(dec) == 1 and h.precedes(cp[0], dec[0]) and h.postdominates(dec[0].point, (h.entry, 0)), 'memcpy:release-after-copy', dec[0].loc if dec else h.where(),
+              'remote_dep_nothread_memcpy must copy (parsec_ce.reshape) before it releases the pending action of the taskpool (remote_dep_dec_flying_messages): released first, parsec_taskpool_wait can return while the flushed value is still being written',
+              note='copy, then release of the pending action, on every path')
+    def names_cmd_taskpool(e):
+        if e.s.endswith('memcpy.taskpool'):
+            return True
+        if e.k == 'ref':      # a local copy of it
+            st = h.stores(e.s)
+            return len(st) == 1 and st[0].rhs is not None and st[0].rhs.s.endswith('memcpy.taskpool')
+        return False
+    rc.expect(bool(dec) and names_cmd_taskpool(dec[0].args[0]), 'memcpy:release-own-taskpool', dec[0].loc if dec else h.where(),
+              'the pending action released must be the one of the taskpool recorded in the command', note='releases the taskpool of the command')
+    # the command is queued together with the pending action (inc before the command becomes visible to the communication thread)
+    hit = 0
+    for name, g2 in um.funcs().items():
+        if not g2.file.endswith('remote_dep_mpi.c'):
+            continue
+        st = [s_ for s_ in g2.stores() if s_.lhs.s.endswith('cmd.memcpy.taskpool')]
+        if not st:
+            continue
+        inc = g2.calls('remote_dep_inc_flying_messages'); snd = [e for e in g2.events() if e.kind == 'call' and e.fn in ('parsec_dequeue_push_back', 'parsec_dequeue_push_front', 'parsec_list_push_back')]
+        hit += 1
+        ctx.functions_analysed.add(name)
+        rc.expect(len(inc) == 1 and bool(snd) and all(g2.precedes(inc[0], s_) for s_ in snd) and inc[0].args[0].s == st[0].rhs.s, 'memcpy:take-before-queue:%s' % name, inc[0].loc if inc else g2.where(),
+                  '%s must take the pending action of the taskpool before the copy command becomes visible to the communication thread' % name,
+                  note='%s: pending action taken before the command is queued' % name)
+    if hit == 0:
+        raise AnalysisBroken('no function queues a memcpy command (cmd.memcpy.taskpool never stored)')
